@@ -634,6 +634,7 @@ def test_segno(rng):
 
     n_ok = 0
     good = []
+    cov = set()
     t0 = time.time()
     for fn, content, kw, want_eci in cases:
         call = call_repr(fn, content, kw)
@@ -645,8 +646,27 @@ def test_segno(rng):
         d = decode(qr.matrix)
         fails = classify(qr, d, content, kw, call, want_eci)
         good.append((fn, content, kw, want_eci))
+        cov.add(('version', d.version_name))
+        cov.add(('level', d.level))
+        cov.add(('mask', d.is_micro, d.mask))
+        for sg in d.segments:
+            cov.add(('mode', d.is_micro, sg.mode))
+        if len([sg for sg in d.segments if sg.is_data()]) > 1:
+            cov.add('multi')
         if check(not fails, '%s: %s' % (call[:300], '; '.join(fails))):
             n_ok += 1
+    for v in (1, 7, 14, 27, 32, 40, 'M1', 'M2', 'M3', 'M4'):
+        check(('version', v) in cov, 'coverage: version %s' % v)
+    for lv in (None, 'L', 'M', 'Q', 'H'):
+        check(('level', lv) in cov, 'coverage: level %s' % lv)
+    for m in range(8):
+        check(('mask', False, m) in cov and (m > 3 or ('mask', True, m) in cov), 'coverage: mask %d' % m)
+    for md in ('numeric', 'alphanumeric', 'byte', 'kanji', 'hanzi', 'eci'):
+        check(('mode', False, md) in cov, 'coverage: QR mode %s' % md)
+    for md in ('numeric', 'alphanumeric', 'byte', 'kanji'):
+        check(('mode', True, md) in cov, 'coverage: Micro mode %s' % md)
+    check('multi' in cov, 'coverage: multi-segment symbols')
+    COUNTS['segno versions covered'] = len([c for c in cov if c[0] == 'version'])
     COUNTS['segno symbols'] = len(cases)
     COUNTS['segno symbols ok'] = n_ok
     COUNTS['segno seconds'] = round(time.time() - t0, 1)
@@ -696,7 +716,6 @@ def test_segno(rng):
 def test_corrupt(rng, cases):
     import segno
     picks = []
-    wanted_versions = [None, 1, 2, 3, 7, 14, 27, 32, 40, 'M1', 'M2', 'M3', 'M4']
     for fn, content, kw, want_eci in cases:
         picks.append((fn, content, kw))
     rng.shuffle(picks)
@@ -711,6 +730,7 @@ def test_corrupt(rng, cases):
             break
     n_ok = 0
     n_err = 0
+    n_beyond = 0
     for fn, content, kw in chosen:
         qr = getattr(segno, fn)(content, **kw)
         clean = decode(qr.matrix)
@@ -724,12 +744,19 @@ def test_corrupt(rng, cases):
         if check(ok, 'corrupt_and_decode %s: corrected %r of %r, problems %r' % (
                 call_repr(fn, content, kw)[:200], d.errors_corrected, want_counts, d.problems)):
             n_ok += 1
-        # one more error than correctable in block 1 must not go unnoticed silently as "clean"
         d2 = corrupt_and_decode(qr.matrix, 1, rng)
         check(d2.payload == clean.payload and d2.errors_corrected == [1] * len(shapes), 'single error per block corrected')
+        # beyond the correction capacity: must be reported, never silently accepted (only where a
+        # miscorrection to another codeword is practically impossible)
+        if min(want_counts) >= 8:
+            d3 = corrupt_and_decode(qr.matrix, min(want_counts) + 1, rng)
+            n_beyond += 1
+            check(d3.uncorrectable_blocks and any(p.startswith('rs') for p in d3.problems),
+                  'floor(ec/2)+1 errors per block reported as uncorrectable: %r' % d3.problems[:2])
     COUNTS['corrupted symbols'] = len(chosen)
     COUNTS['corrupted symbols recovered'] = n_ok
     COUNTS['codeword errors injected'] = n_err
+    COUNTS['over-capacity corruptions'] = n_beyond
     check(len(chosen) == 50, '50 symbols for corrupt_and_decode (%d)' % len(chosen))
 
 
